@@ -22,6 +22,8 @@ def spaces(tier):
         return [
             dict(size=1, level=0, cfg='K0', t0=['empty', 'full', 'dir_d_j', 'dir_d_e'], mut='all'),
             dict(size=1, level=0, cfg='K1', t0=['empty', 'dir_d_j'], mut='rel'),
+            dict(size=2, level=0, cfg='K1', t0=['empty'], mut='none',
+                 kw=dict(paths=['a', 'k/x', 'k/y/z'], bf_modes=['ok', 'rb', 'ra'], sb_modes=['ok'])),
             dict(size=2, level=0, cfg='K0', t0=['empty', 'dir_d_j'], mut='rel', kw=small),
             dict(family='chain3', size=3, level=0, cfg='K0', t0=['empty'], mut='none'),
         ]
